@@ -536,6 +536,14 @@ class HistogramND(HistogramBase):
         return True
 
     @classmethod
+    def _kwargs_from_dict(cls, a_dict):
+        kwargs = super()._kwargs_from_dict(a_dict)
+        if "missed" in kwargs:
+            # Stored as a one-item list (see HistogramBase.to_dict)
+            (kwargs["missed"],) = kwargs["missed"]
+        return kwargs
+
+    @classmethod
     def from_calculate_frequencies(
         cls, data, binnings, weights=None, *, dtype=None, **kwargs
     ):
